@@ -69,7 +69,7 @@ func decodeWithSecondaryError(
 	ctx context.Context, cause error, _ string, _ []string, payload proto.Message,
 ) error {
 	enc, ok := payload.(*errbase.EncodedError)
-	if !ok {
+	if !ok || enc.Error == nil {
 		// If this ever happens, this means some version of the library
 		// (presumably future) changed the payload type, and we're
 		// receiving this here. In this case, give up and let
